@@ -429,7 +429,7 @@ func RunProducerCacheTear(c *Ctx) {
 		probe.step(-1)
 		probe.pushReply("batch", "later", [][]byte{probe.txBytes("a")})
 		probe.step(-1)
-		probe.n.M.SaveCache()
+		probe.saveCache()
 		var files []string
 		filepath.Walk(probe.n.Root, func(p string, info os.FileInfo, err error) error {
 			if err == nil && !info.IsDir() {
@@ -447,16 +447,23 @@ func RunProducerCacheTear(c *Ctx) {
 				p.step(-1)
 				p.pushReply("batch", "later", [][]byte{p.txBytes("a")})
 				p.step(-1)
-				p.n.M.SaveCache() // an earlier clean shutdown
+				p.saveCache() // an earlier clean shutdown
 				full := filepath.Join(p.n.Root, rel)
 				old, _ := os.ReadFile(full)
 				ino0 := inode(full)
 				p.pushReply("batch", "later", [][]byte{p.txBytes("b")})
 				p.step(-1)
-				p.n.M.HeaderCache().SetDAIncluded("some-hash-so-that-the-files-change", 5)
-				p.n.M.DataCache().SetSeen("another-hash")
-				p.n.M.SaveCache() // the shutdown that is interrupted
+				if p.up() {
+					p.n.M.HeaderCache().SetDAIncluded("some-hash-so-that-the-files-change", 5)
+					p.n.M.DataCache().SetSeen("another-hash")
+				}
+				p.saveCache() // the shutdown that is interrupted
 				cur, _ := os.ReadFile(full)
+				if len(cur) == 0 {
+					p.settle(2)
+					p.close()
+					continue
+				}
 				mode := "inplace"
 				if inode(full) != ino0 {
 					mode = "replaced"
@@ -484,6 +491,16 @@ func RunProducerCacheTear(c *Ctx) {
 			}
 		}
 	}
+}
+
+// saveCache performs the cache part of an orderly shutdown; a node that halted is started again first.
+func (p *prodRun) saveCache() bool {
+	if !p.up() {
+		if p.restart(-1) != nil || !p.up() {
+			return false
+		}
+	}
+	return p.n.M.SaveCache() == nil
 }
 
 func inode(path string) uint64 {
